@@ -27,7 +27,17 @@ class CaseTimeout(BaseException):
     pass
 
 
+TIMEOUT_WHERE = []  # innermost frames at the moment the watchdog fired (diagnostic, goes to the evidence file)
+
+
 def _alarm(signum, frame):
+    import traceback
+
+    try:
+        fr = traceback.extract_stack(frame)[-6:]
+        TIMEOUT_WHERE.append(" < ".join(f"{f.filename.rsplit('/', 2)[-1]}:{f.lineno}:{f.name}" for f in reversed(fr)))
+    except Exception:  # noqa: BLE001
+        pass
     raise CaseTimeout()
 
 
